@@ -220,10 +220,25 @@ def main():
     ap.add_argument('--cjobs', type=int, default=4, help='checks in flight per mutant')
     ap.add_argument('--files', default=None)
     ap.add_argument('--kinds', default=None)
+    ap.add_argument('--rerun', default=None, help='mutants.jsonl of an earlier run: re-test its survivors')
     ap.add_argument('--out', default=os.path.join(HERE, '.work', 'mutation'))
     a = ap.parse_args()
-    files = target_files(a.files)
-    allm = enumerate_mutants(files)
+    if a.rerun:
+        # re-test the survivors of an earlier run (same sites: file, kind, line, detail) against the checks as they are now
+        want = set()
+        for l in open(a.rerun):
+            r = json.loads(l)
+            if r.get('status') == 'SURVIVED':
+                want.add((r['file'], r['kind'], r['line'], r['detail']))
+        allm = [m for m in enumerate_mutants(sorted(set(w[0] for w in want)))
+                if (m[0], m[1][0], m[1][1], m[1][3]) in want]
+        # (several sites may share file/kind/line/detail: all of them are re-run)
+        print('re-running %d surviving sites' % len(allm), flush=True)
+        a.n = len(allm)
+        files = sorted(set(m[0] for m in allm))
+    else:
+        files = target_files(a.files)
+        allm = enumerate_mutants(files)
     if a.kinds:
         allm = [m for m in allm if re.search(a.kinds, m[1][0])]
     rng = random.Random(a.seed)
